@@ -519,10 +519,15 @@ func setPath(v Value, path []int, nv Value) Value {
 func (fc *funcCtx) store(st *State, p PtrV, v Value, pos token.Pos) {
 	if p.Heap {
 		if len(p.Path) > 0 {
-			whole := fc.heapLoad(st, p.Elem, p.Ref, p.Idx)
-			v = setPath(whole, p.Path, v)
+			if _, isStruct := p.Elem.Underlying().(*types.Struct); isStruct && lookupOpaque(p.Elem) == nil {
+				fc.heapStorePath(st, p.Elem, p.Ref, p.Idx, p.Path, v)
+			} else {
+				whole := fc.heapLoad(st, p.Elem, p.Ref, p.Idx)
+				fc.heapStore(st, p.Elem, p.Ref, p.Idx, setPathSt(st, whole, p.Path, v))
+			}
+		} else {
+			fc.heapStore(st, p.Elem, p.Ref, p.Idx, v)
 		}
-		fc.heapStore(st, p.Elem, p.Ref, p.Idx, v)
 		if len(fc.con.Ensures) >= 0 && fc.frameChecked() {
 			fc.oblige(st, "frame", fc.site(pos, "index"), app(">=", p.Ref, st.entryBase), "writes only storage allocated by this call")
 		}
